@@ -309,6 +309,10 @@ func (vc *FnVC) applyContractN(fr *frame, st *state, sp *FuncSpec, key string, n
 	// termination of recursion: callee measure below caller's
 	if callee != nil && fr.depth == 0 && vc.eng.sameSCC(vc.fn, callee) {
 		vc.recursionMeasure(fr, st, sp, cfr, vars, key, pos)
+	} else if !light && vc.sharedMeasure(sp) {
+		// caller and callee carry the same function-type measure (static, hinted or dynamic call, also from inlined helpers):
+		// the mutual delegation of the functions of one function type terminates
+		vc.recursionMeasure(fr, st, sp, cfr, vars, key, pos)
 	}
 	pre := st.clone()
 	// frame
@@ -539,6 +543,28 @@ func (vc *FnVC) recursionMeasure(fr *frame, st *state, sp *FuncSpec, cfr *frame,
 	}
 	cm := vc.evalInt(cfr, st, st, calleeDec[0].E, vars)
 	vc.oblige("rec-variant", shortName(key)+":"+calleeDec[0].Src, st.reach, fmt.Sprintf("(and (>= %s 0) (< %s %s))", cm, cm, vc.entryMeasure()), []string{"C01"}, pos)
+}
+
+// sharedMeasure: the function under verification and the callee's contract have the same function-level decreases clause
+// (the clause of a function-type contract merged into both).
+func (vc *FnVC) sharedMeasure(sp *FuncSpec) bool {
+	if vc.spec == nil || sp == nil {
+		return false
+	}
+	var a, b *Clause
+	for _, c := range vc.spec.Clauses {
+		if c.Kind == "decreases" && c.Loop == 0 {
+			a = c
+			break
+		}
+	}
+	for _, c := range sp.Clauses {
+		if c.Kind == "decreases" && c.Loop == 0 {
+			b = c
+			break
+		}
+	}
+	return a != nil && b != nil && a.Src == b.Src && a.File == b.File && a.Line == b.Line
 }
 
 func (vc *FnVC) entryMeasure() string {
